@@ -546,7 +546,7 @@ impl Area for ConfigArea {
     }
     fn cases(&self, thorough: bool) -> u64 {
         if thorough {
-            12_000
+            8_000
         } else {
             500
         }
